@@ -6,6 +6,7 @@ import (
 	"bytes"
 	"fmt"
 	"math/big"
+	"runtime"
 	"strings"
 	"unsafe"
 
@@ -18,7 +19,10 @@ import (
 // C15 — API calls never write caller-owned memory; returned slices are fresh.
 
 type c15Case struct {
-	Kind   string        `json:"kind"` // bytes | ptr | fresh
+	// Batch (Kind == "parallel"): "fresh" cases run simultaneously, one goroutine each, on objects of their own; every
+	// returned slice must still be private to its caller.
+	Batch  []*c15Case    `json:"batch,omitempty"`
+	Kind   string        `json:"kind"` // bytes | ptr | fresh | retain | parallel
 	Fn     string        `json:"fn"`
 	Mode   string        `json:"mode,omitempty"`   // trap (read-only pages) | canary (ordinary memory, whole backing array compared)
 	Layout string        `json:"layout,omitempty"` // exact spare1 spare8 spare64 interior page-end zero-len
@@ -155,6 +159,28 @@ func c15Generate(c *mon.Ctx) {
 				}
 			}
 		}
+	}
+
+	// the "fresh" cases again, 16 at a time
+	pb := c.SharedRng("parallel")
+
+	for b := 0; b < c.N(40, 1000); b++ {
+		batch := &c15Case{Kind: "parallel", Fn: "parallel-fresh"}
+
+		for g := 0; g < 16; g++ {
+			pv := pool.All[pb.Intn(len(pool.All))]
+			reprs := gen.StructuredReprs(pv.P.IsInf())
+			e := mon.MkElemCase(pv, reprs[pb.Intn(len(reprs))])
+			fn := []string{"Element.Encode", "Element.EncodeUncompressed", "Element.XCoordinate", "Element.MarshalBinary", "Scalar.Encode", "Scalar.MarshalBinary", "Element.Encode", "Scalar.Bits"}[(g+b)%8]
+			kind := "fresh"
+			if b%2 == 1 {
+				kind = "fresh-loop"
+			}
+
+			batch.Batch = append(batch.Batch, &c15Case{Kind: kind, Fn: fn, E: &e, S: fmt.Sprintf("%x", gen.Draw(pb, oracle.N).X)})
+		}
+
+		c.Structured(func() any { return batch })
 	}
 
 	// pointer arguments
@@ -319,6 +345,19 @@ func c15Run(c *mon.Ctx, csAny any) {
 	c.Count("fn:" + cs.Fn)
 
 	switch cs.Kind {
+	case "parallel":
+		var cases []any
+		for _, b := range cs.Batch {
+			cases = append(cases, b)
+		}
+
+		// something the library may park in a process-wide slot first (Hex, Bits and Pow use temporaries of their own)
+		_ = secp256k1.Base().Double().Hex()
+		_ = secp256k1.NewScalar().SetUInt64(77).Hex()
+
+		c.RunParallel(cases)
+	case "fresh-loop":
+		c15RunFreshLoop(c, cs)
 	case "bytes":
 		c15RunBytes(c, cs)
 	case "ptr":
@@ -638,6 +677,38 @@ func c15RunPtr(c *mon.Ctx, cs *c15Case) {
 
 	if !bytes.Equal(ea.Encode(), encEA) || !bytes.Equal(sa.Encode(), encSA) || !bytes.Equal(sb.Encode(), encSB) || mon.Snap(ea) != eb || sa.S != sab || sb.S != sbb {
 		c.Fail(fmt.Sprintf("after %s, changing the RECEIVER changed what an argument encodes to: the receiver shares state with its argument", cs.Fn), "argument-shares-state:"+cs.Fn, nil)
+	}
+}
+
+// c15RunFreshLoop: every serialiser of one element and one scalar, again and again, all results of an iteration held until
+// its end and then compared with the oracle's bytes (run 16 at a time: a buffer that two callers were handed at once is
+// overwritten by one of them while the other still holds it).
+func c15RunFreshLoop(c *mon.Ctx, cs *c15Case) {
+	e, p := cs.E.Build(), cs.E.P.Pt()
+	sv := mon.BigH(cs.S)
+	s := mon.Scal(sv)
+	wantC, wantU, wantS := oracle.EncC(p), oracle.EncU(p), oracle.Bytes32(sv)
+
+	for i := 0; i < 400; i++ {
+		hx := e.Hex()
+		enc := e.Encode()
+		unc := e.EncodeUncompressed()
+		shx := s.Hex()
+		senc := s.Encode()
+		mb, _ := e.MarshalBinary()
+		xc := e.XCoordinate()
+
+		c.Eval(7)
+
+		if i%16 == 0 {
+			runtime.Gosched()
+		}
+
+		if hx != mon.H(wantC) || !bytes.Equal(enc, wantC) || !bytes.Equal(unc, wantU) || shx != mon.H(wantS) || !bytes.Equal(senc, wantS) || !bytes.Equal(mb, wantC) ||
+			(!p.IsInf() && !bytes.Equal(xc, wantC[1:])) {
+			c.Fail(fmt.Sprintf("iteration %d: a serialisation of an element / scalar owned by this goroutine changed while it was being held (or came back wrong): Encode=%s want %s", i, mon.H(enc), mon.H(wantC)), "result-not-private", nil)
+			return
+		}
 	}
 }
 
